@@ -48,6 +48,57 @@ pub fn build_cache(cfg: &Cfg, clock: &HClock, inst: &Arc<Instance>) -> CacheD<u6
     CacheD::new(builder.build())
 }
 
+pub const NOISE_KEYS: [u8; 3] = [240, 241, 242];
+
+/// Background readers of dedicated keys (C06 under contention): they keep the pool, the hand-over channel and the
+/// sketch's lock busy while the command worker takes admission decisions.
+struct Noise {
+    stop: Arc<std::sync::atomic::AtomicBool>,
+    paused: Arc<std::sync::atomic::AtomicBool>,
+    idle: Arc<std::sync::atomic::AtomicUsize>,
+    handles: Vec<std::thread::JoinHandle<()>>,
+}
+
+impl Noise {
+    fn start(cache: &Arc<CacheD<u64, u64>>, inst: &Arc<Instance>, threads: u8) -> Noise {
+        let stop = Arc::new(std::sync::atomic::AtomicBool::new(false));
+        let paused = Arc::new(std::sync::atomic::AtomicBool::new(false));
+        let idle = Arc::new(std::sync::atomic::AtomicUsize::new(0));
+        let mut handles = Vec::new();
+        for thread in 0..threads {
+            let (cache, inst, stop, paused, idle) = (cache.clone(), inst.clone(), stop.clone(), paused.clone(), idle.clone());
+            handles.push(std::thread::spawn(move || {
+                verif::install(Some(inst));
+                let mut turn = thread as usize;
+                while !stop.load(Ordering::Acquire) {
+                    if paused.load(Ordering::Acquire) {
+                        idle.fetch_add(1, Ordering::AcqRel);
+                        while paused.load(Ordering::Acquire) && !stop.load(Ordering::Acquire) { std::thread::yield_now(); }
+                        idle.fetch_sub(1, Ordering::AcqRel);
+                        continue;
+                    }
+                    turn = (turn + 1) % NOISE_KEYS.len();
+                    let _ = cache.get(&(NOISE_KEYS[turn] as u64));
+                }
+                verif::install(None);
+            }));
+        }
+        Noise { stop, paused, idle, handles }
+    }
+
+    fn pause(&self) {
+        self.paused.store(true, Ordering::Release);
+        while self.idle.load(Ordering::Acquire) < self.handles.len() { std::thread::yield_now(); }
+    }
+
+    fn resume(&self) { self.paused.store(false, Ordering::Release); }
+
+    fn stop(self) {
+        self.stop.store(true, Ordering::Release);
+        for handle in self.handles { let _ = handle.join(); }
+    }
+}
+
 struct PendingCmd {
     ack: Arc<CommandAcknowledgement>,
     cmd: Pending,
@@ -56,7 +107,8 @@ struct PendingCmd {
 pub struct Exec {
     pub cfg: Cfg,
     pub policy: Policy,
-    pub cache: CacheD<u64, u64>,
+    pub cache: Arc<CacheD<u64, u64>>,
+    noise: Option<Noise>,
     pub inst: Arc<Instance>,
     pub clock: HClock,
     pub model: Model,
@@ -85,7 +137,7 @@ pub struct Exec {
     /// property under check (empty: every oracle failure ends the case)
     pub focus: String,
     pub(crate) accounting_broken: bool,
-    stats_broken: bool,
+    pub(crate) stats_broken: bool,
     /// deadline of keys the sweeper removed (for the near-deadline statistics only)
     swept_deadline: BTreeMap<u8, Duration>,
     /// whether the physical-state comparison (hooks) is on
@@ -102,8 +154,9 @@ impl Exec {
         inst.enable_trace(true);
         let start = BASE_SECS * 1_000_000_000 + cfg.start_ns;
         let clock = HClock::new(start);
-        let cache = build_cache(cfg, &clock, &inst);
+        let cache = Arc::new(build_cache(cfg, &clock, &inst));
         Exec {
+            noise: None,
             cfg: cfg.clone(),
             policy: policy.clone(),
             cache,
